@@ -5,6 +5,7 @@ import random
 import typing
 
 from monkeytype.encoding import (CallTraceRow, arg_types_from_json, arg_types_to_json, maybe_decode_type, maybe_encode_type, type_from_json, type_to_json)
+from monkeytype.compat import is_typed_dict
 from monkeytype.tracing import CallTrace
 from monkeytype.typing import get_type
 from runtime import corpus, infer, spec_c
@@ -43,8 +44,7 @@ def run(ctx):
             t2 = infer.infer(list(vals), k)
             types.append((t, t2, "infer(%s, %s)" % (infer.short(vals, 80), k)))
     for t in corpus.types_corpus(2):
-        if spec_c.kind(t) != "TupleVar" and not any(spec_c.kind(n) == "TupleVar" for n in getattr(t, "__args__", ()) if n is not Ellipsis):
-            types.append((t, t, "corpus"))
+        types.append((t, t, "corpus"))          # incl. the rewritten forms Tuple[T, ...] (RewriteLargeUnion), whose `...` argument is encoded too
     for t, t2, origin in types:
         if not importable(t):
             continue
@@ -123,6 +123,14 @@ GENERIC_NAME = {"List": "List", "Set": "Set", "Dict": "Dict", "DefaultDict": "De
 ENC_KINDS = {"Any", "Class", "List", "Set", "Dict", "DefaultDict", "Tuple", "Type", "Iterator", "Generator", "Callable", "Union", "TD", "NamedTD"}
 HAS_ARGS = {"List", "Set", "Dict", "DefaultDict", "Tuple", "TupleVar", "Type", "Iterator", "Generator", "Union"}
 HIDDEN = {"NoneType": type(None), "NotImplementedType": type(NotImplemented), "mappingproxy": type(type.__dict__)}
+
+
+def has_variadic_tuple(t):
+    if spec_c.kind(t) == "TupleVar":
+        return True
+    if is_typed_dict(t):
+        return any(has_variadic_tuple(x) for x in t.__annotations__.values())
+    return any(a is not Ellipsis and has_variadic_tuple(a) for a in getattr(t, "__args__", ()) or ()) if spec_c.kind(t) in HAS_ARGS else False
 
 
 def wf_st(t):
@@ -212,6 +220,8 @@ def validate_t_enc(H, types):
     for top in types:
         if not importable(top):
             continue
+        if has_variadic_tuple(top):
+            continue        # Tuple[T, ...] only arises from rewriting (at stub time): outside wf_st by design - its round trip is decided by the bounded section above, not by the proved contracts
         if not wf_st(top):
             H.theory_failure("wf_st", "an inferred / corpus type is outside the encoder's structural precondition", repr(top))
             continue
